@@ -50,6 +50,7 @@ const (
 	stDerived
 	stJoin
 	stLoop
+	stParam // the body of a spec function: every heap it reads becomes a hidden parameter (speceval.go declareSpecFn)
 )
 
 type joinEdge struct {
@@ -74,6 +75,9 @@ type State struct {
 	roots  map[string][]string // loop head: per key, the only objects written in the loop
 	cache  map[string]string
 	id     int
+	used   *[]HeapKey // stParam: heaps read so far, in order of first use
+	immutFrom *State  // stBase made by a havoc: the state before it (immutable fields keep their values, immutable.go)
+	inl       bool    // created while evaluating a specification under binders: its terms may mention bound variables
 }
 
 func (c *FuncCtx) newBase() *State {
@@ -87,10 +91,23 @@ func (s *State) get(k HeapKey) string {
 		return t
 	}
 	s.c.heapKeys[k.Name] = k
+	if !s.inl && s.c.inlineDefs > 0 {
+		// a state of the program (not one built inside the specification being evaluated) never mentions bound
+		// variables: its heaps get ordinary global names even when the clause using them sits under a binder
+		saved := s.c.inlineDefs
+		s.c.inlineDefs = 0
+		defer func() { s.c.inlineDefs = saved }()
+	}
 	var t string
 	switch s.kind {
+	case stParam:
+		t = k.Name + "!hp"
+		*s.used = append(*s.used, k)
 	case stBase:
 		t = s.c.declare(fmt.Sprintf("%s@%d", k.Name, s.epoch), k.Sort)
+		if s.immutFrom != nil && s.c.immutableKey(k.Name) {
+			s.c.immutablePreserved(k, t, s.immutFrom)
+		}
 		if k.Ref != "" {
 			s.c.heapRefAxiom(k, t, false, s.get(allocKey))
 		} else if k.Name == allocKey.Name {
@@ -140,6 +157,9 @@ func (s *State) get(k HeapKey) string {
 			s.c.axiom(fmt.Sprintf("(>= %s %s)", t, s.entry.get(k)), t)
 		} else if s.modAll || s.mod[k.Name] {
 			t = s.c.declare(fmt.Sprintf("%s@L%d", k.Name, s.epoch), k.Sort)
+			if s.c.immutableKey(k.Name) {
+				s.c.immutablePreserved(k, t, s.entry)
+			}
 			if k.Ref != "" {
 				s.c.heapRefAxiom(k, t, false, s.get(allocKey))
 			}
@@ -155,7 +175,7 @@ func (s *State) set(k HeapKey, term string) *State {
 	s.c.heapKeys[k.Name] = k
 	s.c.stateID++
 	name := s.c.define(fmt.Sprintf("%s@s%d", k.Name, s.c.stateID), k.Sort, term)
-	return &State{c: s.c, kind: stDerived, parent: s, key: k.Name, term: name, cache: map[string]string{}, id: s.c.stateID}
+	return &State{c: s.c, kind: stDerived, parent: s, key: k.Name, term: name, cache: map[string]string{}, id: s.c.stateID, inl: s.c.inlineDefs > 0}
 }
 
 func (c *FuncCtx) joinStates(edges []joinEdge) *State {
@@ -163,7 +183,7 @@ func (c *FuncCtx) joinStates(edges []joinEdge) *State {
 		return edges[0].st
 	}
 	c.stateID++
-	return &State{c: c, kind: stJoin, edges: edges, cache: map[string]string{}, id: c.stateID}
+	return &State{c: c, kind: stJoin, edges: edges, cache: map[string]string{}, id: c.stateID, inl: c.inlineDefs > 0}
 }
 
 func (c *FuncCtx) loopState(entry *State, mod map[string]bool, modAll bool, roots map[string][]string) *State {
